@@ -227,8 +227,18 @@ def storage_iface(ctx, rr):
         val = ret[0].text
         if not mod:
             bad.append((r, 'a verdict is returned without looking at length %% block_size'))
-        elif (val == 'True') != bool(mod[-1][1]):
-            bad.append((r, 'returns %s although length %% block_size is %s' % (val, 'non-zero' if mod[-1][1] else 'zero')))
+            continue
+        k_, v_ = mod[-1]
+        if k_.startswith('LIN:') and k_.rstrip().endswith('== 0'):
+            nonzero = not v_
+        elif k_.startswith('LIN:') and ('>= 1' in k_):
+            nonzero = bool(v_)
+        elif k_.startswith('LIN:') and ('<= 0' in k_):
+            nonzero = not v_
+        else:
+            nonzero = bool(v_)
+        if (val == 'True') != nonzero:
+            bad.append((r, 'returns %s although length %% block_size is %s' % (val, 'non-zero' if nonzero else 'zero')))
     rr.ob(ctx.where(fs), 'check_for_corruption is true exactly when the file length is not a multiple of the block size (%d rows)' % len(rows), ok=not bad)
     for r, msg in bad:
         rr.fail(ctx.finding('R-STORAGE-IFACE', fs, fs.node, 'FileStorage.check_for_corruption: %s: a partially written block can be accepted on reopen' % msg,
@@ -263,7 +273,8 @@ def _cursor_protocol(ctx, cls, r):
                     default_ok = True
                     cur_attrs.add(self_attr(a.value))
     adv = [a for a in P.own(r, ast.Assign) if any(self_attr(t) in cur_attrs for t in a.targets)]
-    adv_ok = bool(adv) and all(ast.unparse(a.value).replace(' ', '') in ('%s+self.block_size' % p, 'self.block_size+%s' % p) for a in adv)
+    from ..dataflow import rtext
+    adv_ok = bool(adv) and all(rtext(P, r, a.value) in ('%s+self.block_size' % p, 'self.block_size+%s' % p) for a in adv)
     # the advance dominates every return
     g = ctx.cfg(r)
     from ..cfg import solve_forward
